@@ -43,9 +43,12 @@ import types
 
 import common
 from common import enc, dec, err_kind
+from props import c12_tr
 
 ID = "C12"
-RULE = ("filters ZFilter/LinearFilter(b, a) and z-expressions with small int / dyadic / Fraction / Gaussian-int "
+RULE = ("[translator: before the build the bodies / decorators / signatures of the four anchored functions are re-read from "
+        "the source under test and lean/ALV/Gen/C12Src.lean is rewritten; the entries freq / bank / dft also return the value "
+        "of the regenerated definitions] filters ZFilter/LinearFilter(b, a) and z-expressions with small int / dyadic / Fraction / Gaussian-int "
         "coefficients (orders 0..6 quick, ..10 thorough, incl. zero, leading-zero and gap coefficients), filters given "
         "as {delay: coeff} dicts (sparse, unordered, non-causal), probed at rational points of the unit circle "
         "(omega = atan2 float, optionally wrapped to [0, 2pi)) incl. 0, pi, +-pi/2, through every frequency container "
@@ -68,6 +71,23 @@ RULE = ("filters ZFilter/LinearFilter(b, a) and z-expressions with small int / d
         "FIR / exponential run also against the C04 specification (fspec).  Non-trivial = the impl returned "
         "at least one finite non-zero value, a predicted nan or a predicted exception; distinct = distinct JSON case")
 TRUSTED = [
+    "source translator harness/props/c12_tr.py (ast -> lean/ALV/Gen/C12Src.lean, rewritten before every build; "
+    "Props.C12.src_*_is_model prove each regenerated definition equal to the hand-written model function).  It trusts: "
+    "the semantics it assumes for its Python subset (straight-line `name = expr`, `if / else`, `return`; generator "
+    "expressions and list comprehensions as maps in iteration order; `sum` as the left fold from 0 over enumerate; "
+    "`reduce(operator.mul | add, G)` as ALV.C12.reduceResp, i.e. the hand model of * / + on responses with nan absorbing "
+    "and exceptions propagating; `[v / d for v in data]` raising ZeroDivisionError at the first element iff d = 0) and its "
+    "vocabulary mapping (`complex_exp` / `cexp` of a product of one imaginary literal, at most one index and one frequency "
+    "-> X.cis s n f; `self.numpoly(e)` / `self.denpoly(e)` -> the hand model evalPoly of Poly.__call__; `not isinstance(den, "
+    "Stream)` taken as true = number regime; `return nan` -> none; `filt.freq_response(freq)` -> the member's own response; "
+    "`self.callables` -> the member list; `@elementwise(name, pos)` -> the hand model ALV.C12.wrapper applied to python's "
+    "binding of the parameter list read from the source); module-level bindings of that vocabulary (cmath.exp, "
+    "functools.reduce, operator, lazy_math.cexp = elementwise(\"x\", 0)(cmath.exp), lazy_math.nan = float(\"nan\")) are "
+    "checked in the source, names re-bound inside a translated function are a TranslationError.  Cross-checked on every "
+    "run: the driver also RUNS the regenerated definitions (payload `gen` of the entries freq / bank / dft) and the "
+    "harness compares them with the impl like the model; the translator self test (10 edited copies of the source text "
+    "must change the translation or fail to translate, 2 layout-only edits must not, the unchanged text must reproduce "
+    "the committed file byte for byte)",
     "the call: hand-written Lean model ALV/Model/C12Call.lean of lazy_misc.elementwise's wrapper (decorator default, "
     "positional test, kwargs[name], Iterable / STR_TYPES / SOME_GEN_TYPES / Stream tests, replaced argument, "
     "type(arg)(data)), of python's binding of (self, freq) resp. (blk, freqs, normalize=True), of generator "
@@ -115,7 +135,18 @@ ASSUMPTIONS = [
 ]
 
 MANIFEST = {
-    "text": ("Lean 4 theorems (63, no sorry/axiom) about a hand-written executable model of freq_response "
+    "technique": ("Lean 4 proof about an executable model + SOURCE TRANSLATOR for the anchored function bodies "
+                  "(harness/props/c12_tr.py regenerates lean/ALV/Gen/C12Src.lean from lazy_filters.py / lazy_analysis.py "
+                  "with ast on every run; src_*_is_model theorems re-prove regenerated definition = model) + differential "
+                  "correspondence in the float regime for everything, incl. the regenerated definitions"),
+    "text": ("Lean 4 theorems (70, no sorry/axiom).  The bodies of LinearFilter.freq_response, CascadeFilter.freq_response, "
+             "ParallelFilter.freq_response and dft, the @elementwise(\"freq\", 1) decorators with the parameter lists, and "
+             "dft's signature / default are REGENERATED from the source on every run (translator c12_tr.py -> "
+             "Gen/C12Src.lean) and proved equal to the model functions (src_linear_freq_response_is_model, "
+             "src_cascade_/src_parallel_freq_response_is_model, src_dft_is_model, src_freq_response_call_is_model, "
+             "src_dft_signature_is_model; src_complex restates clause 1 and the dft sum for the regenerated bodies over C); "
+             "Poly.__call__, LinearFilter.__init__, the elementwise wrapper itself and the list semantics of banks stay "
+             "hand-written.  The theorems are about a hand-written executable model of freq_response "
              "(LinearFilter.__init__ normalisation, Poly.__call__ paths, nan test), Cascade/Parallel banks to any "
              "nesting depth, dft and the FIR instance of the generated filter loop: transfer function in every field "
              "and over C at w = exp(-j omega), cascade = product, parallel = sum — for the bank as it is NOW after any "
@@ -134,8 +165,10 @@ MANIFEST = {
              "correspondence in the float regime (exact Gaussian-rational value vs impl float, a-priori rounding bound)"),
     "note": ("Trusted: Lean kernel, axioms propext/Classical.choice/Quot.sound, the Python correspondence harness "
              "(incl. the omega <-> w mapping by atan2 and the tolerance rule 1e-9*(1+|expected|) with a per-case "
-             "a-priori rounding bound <= 2e-10); IEEE-754 / cmath rounding is not modelled; the model is hand written "
-             "and validated against the code differentially, not extracted from it."),
+             "a-priori rounding bound <= 2e-10); IEEE-754 / cmath rounding is not modelled; the four anchored function "
+             "bodies are translated from the source on every run (trusting the translator's Python-subset semantics and "
+             "vocabulary mapping, see TRUSTED), the rest of the model (Poly.__call__, the constructor, the elementwise "
+             "wrapper, list operations) is hand written and validated against the code differentially."),
 }
 
 TOL = 1e-9
@@ -2025,6 +2058,10 @@ def compare(c, io, drv):
         if ill_conditioned(c):
             return []
         cmp_resp(c, io, drv["model"], "model", "model", out, drv["ctor_model"])
+        if "gen" in drv:
+            # the definitions regenerated from the source under test (Gen/C12Src.lean), run by the driver: cross-check of
+            # the translator (it follows the source, so under an edited source it agrees with the impl, not with the model)
+            cmp_resp(c, io, drv["gen"], "regenerated definition", "model", out, drv["ctor_model"])
         cmp_resp(c, io, drv["spec"], "spec", "spec", out, drv["ctor_spec"])
         if "spec_terms" in drv and drv["spec_terms"] != drv["spec"] and not drv["ctor_spec"]:
             out.append(("spec", "the dict form of the specification differs from the dense one: %r vs %r"
@@ -2058,16 +2095,16 @@ def compare(c, io, drv):
                     out.append((tag, "dft is not linear (%s): impl=%r %s=%r" % (side, got, tag, d)))
         return out
     if "err" in io:
-        for tag in ("model", "spec"):
-            d = drv[tag]
+        for tag in ("model", "spec") + (("gen",) if e == "dft" and "gen" in drv else ()):
+            d = drv.get(tag, drv.get("steady") if tag == "spec" else None)     # entry expo: the spec side is `steady`
             if not (isinstance(d, dict) and d.get("err") == io["err"]):
-                out.append((tag, "%s: impl raised %s, %s gives %r" % (e, io["err"], tag, d)))
+                out.append((tag if tag != "gen" else "model", "%s: impl raised %s, %s gives %r" % (e, io["err"], tag, d)))
         return out
     if e == "dft":
-        for tag in ("model", "spec"):
+        for tag in ("model", "spec") + (("gen",) if "gen" in drv else ()):     # gen: the regenerated body, see "freq"
             d = drv[tag]
             if isinstance(d, dict) or not lclose(io["vals"], d, TOL):
-                out.append((tag, "dft differs from %s: impl=%r %s=%r" % (tag, io["vals"], tag, d)))
+                out.append((tag if tag != "gen" else "model", "dft differs from %s: impl=%r %s=%r" % (tag, io["vals"], tag, d)))
         return out
     if e == "fir":
         exact = c["ctype"] in ("int", "dyadic")
@@ -2637,3 +2674,41 @@ def classify(c, io, drv):
         if any(x == "nan" for x in exp) or any(x == "nan" for x in io.get("vals", [])):
             return "%s:nan-mismatch-or-value" % tag
     return "%s:value" % tag
+
+
+# =============================================================================================
+# source translator (harness/props/c12_tr.py -> lean/ALV/Gen/C12Src.lean)
+# =============================================================================================
+def regenerate(eng=None):
+    return c12_tr.regenerate(eng)
+
+
+def extra_checks(eng):
+    """translator self test + the list of what is / is not under the translator (evidence)"""
+    import os
+    import subprocess
+    eng.extra["translated"] = {
+        "translator": "harness/props/c12_tr.py -> lean/ALV/Gen/C12Src.lean (rewritten before every build)",
+        "under_the_translator": c12_tr.TRANSLATED,
+        "hand_written_only": c12_tr.NOT_TRANSLATED,
+    }
+    committed = None
+    try:
+        r = subprocess.run(["git", "-C", common.VERIF, "show", "HEAD:lean/" + c12_tr.GEN_REL.replace(os.sep, "/")],
+                           capture_output=True, text=True, timeout=30)
+        if r.returncode == 0:
+            committed = r.stdout
+    except Exception:
+        committed = None
+    if committed is None:
+        with open(os.path.join(common.LEAN, c12_tr.GEN_REL)) as f:
+            committed = f.read()
+    try:
+        texts = c12_tr.read_sources()
+        c12_tr.translate(texts)
+    except Exception as e:            # already reported by regenerate() as a broken obligation
+        yield ("translator-selftest", False, "the source under test does not translate (%s: %s)" % (type(e).__name__, e))
+        return
+    # the self test runs on the source under test when that is the committed state, else the edits may not apply
+    for name, ok, detail in c12_tr.selftest(texts, committed):
+        yield (name, ok, detail)
